@@ -27,6 +27,7 @@ ASSUMPTIONS = [
     "Edits that are Python-equal but differently typed (1 -> 1.0 by whole assignment / update) are skipped here and "
     "reported by C04's dedicated monitor.",
 ]
+MANIFEST = {"technique": 'runtime monitoring: history executor vs in-memory model after every step, FS-call monitor (P-contain), live-handle observers', "engine": 'fs-call monitor (audit hook)'}
 TIME_CAP = {"quick": 75, "thorough": 1500}
 
 
